@@ -15,6 +15,7 @@ killed).
 Oracle: the same real code building the final project state in an empty directory.
 """
 import asyncio
+import concurrent.futures
 import glob
 import hashlib
 import io
@@ -98,6 +99,12 @@ def write_project(root, st):
     os.makedirs(os.path.join(root, 'classes'), exist_ok=True)
     with open(os.path.join(root, 'config.yaml'), 'w') as f:
         f.write('bobMinimumVersion: "0.25"\n')
+    dflt = os.path.join(root, 'default.yaml')
+    if st.get('archive'):
+        with open(dflt, 'w') as f:
+            f.write('archive:\n  backend: file\n  path: "%s"\n' % st['archive'])
+    elif os.path.exists(dflt):
+        os.unlink(dflt)
     with open(os.path.join(root, 'classes', 'common.yaml'), 'w') as f:
         f.write('buildScript: "class-build-%d"\nbuildVarsWeak: [W, MODE]\n' % st['cls'])
     with open(os.path.join(root, 'recipes', 'lib.yaml'), 'w') as f:
@@ -203,11 +210,23 @@ async def fake_run(self, args, cwd, stdout=None, stderr=None, check=False, **kw)
     return Finished(0)
 
 
+class SyncExecutor(concurrent.futures.Executor):
+    """stands in for the process pool: the archive helpers run at once in the calling (main) thread"""
+
+    def submit(self, fn, *args, **kwargs):
+        f = concurrent.futures.Future()
+        try:
+            f.set_result(fn(*args, **kwargs))
+        except Exception as e:
+            f.set_exception(e)
+        return f
+
+
 class ELW:
     def __enter__(self):
         self.loop = asyncio.new_event_loop()
         asyncio.set_event_loop(self.loop)
-        return (self.loop, None)
+        return (self.loop, SyncExecutor())
 
     def __exit__(self, *a):
         try:
@@ -248,6 +267,20 @@ def install():
         _steps.extend(steps)
         return orig_cook(self, steps, checkoutOnly, loop, depth)
     BB.LocalBuilder.cook = cook
+    orig_cps = BB.LocalBuilder._cookPackageStep
+
+    def cps(self, packageStep, *a, **k):
+        if World.cur is not None:
+            World.cur.cooked.add((packageStep.getPackage().getName(), packageStep.getVariantId().hex()))
+        return orig_cps(self, packageStep, *a, **k)
+    BB.LocalBuilder._cookPackageStep = cps
+    orig_dl = BB.LocalBuilder._downloadPackage
+
+    def dl(self, packageStep, *a, **k):
+        if World.cur is not None:
+            World.cur.cooked.add((packageStep.getPackage().getName(), packageStep.getVariantId().hex()))
+        return orig_dl(self, packageStep, *a, **k)
+    BB.LocalBuilder._downloadPackage = dl
     import bob.audit as BAU
     orig_asave = BAU.Audit.save
 
@@ -318,6 +351,8 @@ def invoke(w, st, release, extra=()):
     w.execs = []
     w.saves = 0
     w.crashed = False
+    w.by_vid = {}
+    w.cooked = set()
     os.chdir(w.root)
     write_project(w.root, st)
     argv = ['app'] + (['solo'] if st.get('solo') else []) + defines(st) + list(extra)
@@ -338,6 +373,7 @@ def invoke(w, st, release, extra=()):
             seen.add(s.getWorkspacePath())
             if s.isPackageStep():
                 outs[s.getPackage().getName()] = dir_content(s.getWorkspacePath())
+                w.by_vid[(s.getPackage().getName(), s.getVariantId().hex())] = outs[s.getPackage().getName()]
             visited.append((s.getPackage().getName() + '/' + s.getLabel(), s.getWorkspacePath()))
             try:
                 with open(os.path.join(s.getWorkspacePath(), 'residue.txt')) as f:
@@ -382,6 +418,7 @@ def clean_build(st, release):
     o, outs, res = invoke(w, st, release)
     if o != 'ok':
         raise V.HarnessGap('clean build failed: ' + o)
+    clean_build.last = w
     return outs
 
 
@@ -569,6 +606,96 @@ def check_c06(fail: int, jobs: int, keep: bool) -> bool:
     return V.verdict(ok, fact)
 
 
+# ---------------------------------------------------------------- C07 ----
+DMODES = ['no', 'yes', 'deps']
+
+
+def archive_history(e1, fresh2, d2, u2, e2, d3, fault, d4):
+    """inv1 populates a file archive from workspace A; inv2 (after edit e1) runs in a fresh workspace B or in A with download
+    mode d2 (upload u2); inv3 (same workspace, after edit e2 = nothing / e1 once more) with download mode d3, optionally aborted
+    by a failing step and then repeated with download mode d4.  After every completed invocation all package results equal a
+    purely local clean build of that project state."""
+    install()
+    cwd = os.getcwd()
+    try:
+        arch = fresh('archive')
+        st = initial()
+        st['archive'] = arch
+        wa = World(fresh('projA'))
+        o, outs, res = invoke(wa, st, False, ['--download=no', '--upload'])
+        if o != 'ok':
+            raise V.HarnessGap('populating build failed')
+        if not any(f.endswith('.tgz') for d, ds, fs in os.walk(arch) for f in fs):
+            raise V.HarnessGap('nothing was uploaded')
+        w = World(fresh('projB')) if fresh2 else wa
+        st = apply_edit(st, e1)
+
+        def verify(o, outs, what):
+            if o != 'ok':
+                return 'invocation-failed-' + o + what
+            want = clean_build({k: v for k, v in st.items() if k != 'archive'}, False)
+            if 'app' not in outs or 'out.txt' not in outs['app']:
+                raise V.HarnessGap('no result of the root package found')
+            if outs.get('app') != want['app']:
+                return 'result-differs-from-local-build' + what
+            ref = clean_build.last.by_vid
+            # every package this invocation produced / downloaded / declared up to date (with downloads a dependency that
+            # nobody needs is not visited at all; its workspace may hold an older variant)
+            for key in w.cooked:
+                if key not in ref:
+                    raise V.HarnessGap('package variant unknown to the local build')
+                if w.by_vid.get(key) != ref[key]:
+                    if os.environ.get('W_DEBUG'):
+                        print('DIFF', key, w.by_vid.get(key), ref[key], file=sys.__stderr__)
+                    return 'result-differs-from-local-build' + what
+            return None
+        o, outs, res = invoke(w, st, False, ['--download=' + DMODES[d2]] + (['--upload'] if u2 else []))
+        ex2 = list(w.execs)
+        v = verify(o, outs, ' (2)')
+        if v:
+            return False, v
+        if fresh2 and e1 == 0 and DMODES[d2] == 'yes':
+            # identical recipes and sources at another location: everything comes from the archive
+            if any(k.endswith('/build') or k.endswith('/dist') for k in ex2):
+                return False, 'build-step-executed-although-artifact-available'
+        st = apply_edit(st, e2)
+        if fault >= 0:
+            w.fault = ('fail', STEP_KEYS[fault])
+            o, outs, res = invoke(w, st, False, ['--download=' + DMODES[d3]])
+            w.fault = None
+            o, outs, res = invoke(w, st, False, ['--download=' + DMODES[d4]])
+        else:
+            o, outs, res = invoke(w, st, False, ['--download=' + DMODES[d3]])
+        v = verify(o, outs, ' (3)')
+        if v:
+            return False, v
+        return True, 'ok'
+    finally:
+        os.chdir(cwd)
+
+
+def check_c07(e1: int, fresh2: bool, d2: int, u2: bool, again: bool, d3: int, fault: int, d4: int) -> bool:
+    """
+    pre: 0 <= e1 < EDITS
+    pre: 0 <= d2 <= 2 and 0 <= d3 <= 2 and 0 <= d4 <= 2
+    pre: -1 <= fault < 8
+    pre: e1 == V.SHARD[0]
+    pre: fault >= 0 or d4 == 0
+    pre: V.SHARD[1] or (fault < 0 and not again) or (fault >= 0 and fault % 3 == 2 and u2 and not again)
+    post: _
+    """
+    V.enter()
+    e = V.SHARD[0]
+    a2 = V.concretize(d2, 3)
+    a3 = V.concretize(d3, 3)
+    a4 = V.concretize(d4, 3)
+    f = V.concretize(fault, 8, -1)
+    fr, up, ag = bool(fresh2), bool(u2), bool(again)
+    with V.fast():
+        ok, fact = archive_history(e, fr, a2, up, e if ag else 0, a3, f, a4)
+    return V.verdict(ok, fact)
+
+
 def PLAN(tier):
     q = tier == 'quick'
     P = []
@@ -581,4 +708,6 @@ def PLAN(tier):
             for lo in range(0, n, step):
                 P.append(dict(fn='check_c05', shard=[fk, lo, min(n, lo + step), rel], timeout=600 if q else 3000))
     P.append(dict(fn='check_c06', shard=[0], timeout=600))
+    for e in range(EDITS):
+        P.append(dict(fn='check_c07', shard=[e, not q], timeout=900 if q else 3000))
     return P
